@@ -73,5 +73,15 @@ CHECKS["C13"] = dict(
     note=_TB + _KRY + "; upper triangle of H is generic rational for n >= 3; path coverage partial (magnitude orderings inside the padding mask)",
     technique="concolic symbolic execution of the Python source on exact rational-function terms with exact LAPACK stand-ins; z3 decides path "
               "feasibility, branch flips and assumption seeds; float replay of every path seed")
-for _p in ["C04","C05","C06","C07","C09","C10","C11","C16","C17","C18","C19"]:
+CHECKS["C04"] = dict(
+    text="symbolic execution of the real plum resolver (Resolver.resolve, Signature.match, signature ordering, precedence / condition bonus) and of "
+         "the real rule conditions on proxy arguments whose operator kind, declared annotation, dtype class, factors-square flag and algorithm "
+         "class are z3 finite-domain variables; for each of 22 dispatch functions and argument patterns every resolver path is explored "
+         "(both directions of every branch checked by z3, so the exploration is complete) and the paths ending in Ambiguous / NotFound are "
+         "enumerated into concrete lattice points; every lattice point is cross-validated against the real resolver on real instances",
+    note=_TB + "; 21 operator kinds x 5 annotation options x real/complex x factors-square x admissible algorithm classes; only the resolution step "
+         "(not the selected rule's body) is in scope",
+    technique="symbolic execution of the dispatcher's Python source over z3 finite sorts with complete path enumeration (solver-checked), plus "
+              "exhaustive concrete enumeration of the same lattice as translator validation / replay")
+for _p in ["C05","C06","C07","C09","C10","C11","C16","C17","C18","C19"]:
     NA[_p] = "check under construction in this session (not yet registered); see DESIGN.md section 5 for the plan"
